@@ -186,6 +186,8 @@ class Check:
             key = v["unit"]
             if "/shape[" in v["oid"]:
                 key = v["oid"].split("/shape[")[0]  # forwarding units: one replay per method
+            if "/opacity/" in v["oid"]:
+                key = v["oid"].split("/opacity/")[0].split("::")[0]  # opacity units: one replay per module
             if "/guard/" in v["oid"]:
                 key = v["oid"].split("/guard/")[0]  # guard units: one replay per function
             if "/frame-" in v["oid"]:
